@@ -768,6 +768,9 @@ func (g *gen) randomOpWith(pick func() int) {
 			if k < 0 {
 				k = 0
 			}
+			if k > n {
+				k = n // truncation shortens (or keeps) a file; it never extends it
+			}
 			g.do(Op{Op: "Trunc", Path: p, N: k, X: -1})
 		}
 	case c < 67:
